@@ -568,7 +568,7 @@ int main(int argc, char **argv) {
     for (BasicBlock &B : F)
       for (Instruction &I : B)
         if (auto *DVI = dyn_cast<DbgVariableIntrinsic>(&I))
-          if (DVI->getVariable()->getArg())
+          if (DVI->getVariable()->getArg() && !(DVI->getDebugLoc() && DVI->getDebugLoc().getInlinedAt()))
             pnames[DVI->getVariable()->getArg()] = DVI->getVariable()->getName().str();
     out << ",\"params\":[";
     for (Argument &A : F.args()) {
